@@ -15,8 +15,10 @@ FAIL_PREFIXES = ["C01", "C04/C01", "D10", "D11"]
 NEEDS = ["Model/SeqCodecInst.vo", "Base/DriverSupport.vo"]
 # model layers of the other methods, checked as part of C01: the kd-tree codec (Properties_KD.v, h_kd) and the mesh prediction
 # schemes of the Edgebreaker attribute layer (Properties_PRED.v, h_pred), and the serialisation of the Edgebreaker connectivity
-# (symbols, split events, start faces, seams, header; Properties_TRAV.v, h_trav)
-SUBCHECKS = ["KD", "PRED", "TRAV"]
+# (symbols, split events, start faces, seams, header; Properties_TRAV.v, h_trav), and the Edgebreaker connectivity encoder state
+# machine with the executable encoder->decoder round-trip check (Properties_EBENC.v, h_ebenc), and the attribute traversers that
+# produce the maps the prediction schemes consume (Properties_TRAVS.v, h_travs)
+SUBCHECKS = ["KD", "PRED", "TRAV", "EBENC", "TRAVS"]
 
 def corr_runs(ctx):
     return [dict(tag="h_seq", harness="seq", driver="seq", args=[ctx.tier, ctx.seed], needs_vo=NEEDS, timeout=3000),
